@@ -1,2 +1,127 @@
-(* C10 — placeholder until the proofs land (statements are added only when proved). *)
-From BWPlanner Require Import Terms.
+(* C10 — OPTIONAL is a left outer join: it never removes rows.
+   Model: the optional branches of Plan.process_clause (LeftOptionalJoin for disjoint bindings, NULL extension in
+   addSpecifiedData) and Rows.left_optional_join; `current` = the tree with repairs F9 (ecd016d) and F14 (b974631).
+   Specification: PatternSpec.spec_step for a clause with c_opt = true.
+   OPEN (design-notes/C10.md): the composition "model step = specification step" over whole patterns is only covered by
+   the correspondence run. *)
+From Coq Require Import List ZArith NArith Bool.
+Import ListNotations.
+From BWPlanner Require Import Terms Rows Clause Store Fetch Plan PatternSpec Current Corr Witnesses RowsProofs FetchProofs PlanProofs SpecProofs.
+
+(* ---- the specification's optional step is the left outer join of the property text: per row, its extensions by the
+   matches that agree on the shared bindings, or exactly one extension in which the clause's new bindings are NULL *)
+Theorem C10_left_join :
+  forall glo gs c mus,
+    spec_step glo gs c mus =
+    flat_map (fun mu => match spec_extend c glo gs mu with
+                        | [] => if c_opt c
+                                then [merge_rows mu (map (fun k => (k, CNull)) (filter (fun k => negb (has mu k)) (clause_bindings c)))]
+                                else []
+                        | ext => ext
+                        end) mus.
+Proof. exact spec_step_left_join. Qed.
+Print Assumptions C10_left_join.
+
+Theorem C10_null_extension :
+  forall mu c k, In k (clause_bindings c) -> get mu k = None ->
+    get (merge_rows mu (map (fun k => (k, CNull)) (filter (fun k => negb (has mu k)) (clause_bindings c)))) k = Some CNull.
+Proof. exact spec_null_extension. Qed.
+Print Assumptions C10_null_extension.
+
+Theorem C10_spec_never_removes :
+  forall glo gs c mus, c_opt c = true ->
+    (length mus <= length (spec_step glo gs c mus))%nat /\
+    forall mu, In mu mus -> exists r, In r (spec_step glo gs c mus) /\ sub_row mu r.
+Proof. exact spec_step_optional_never_removes. Qed.
+Print Assumptions C10_spec_never_removes.
+
+(* ---- the model (for ALL graphs, clauses, rows): an OPTIONAL clause that shares bindings with the table
+   (specifyClauseWithTable / addSpecifiedData, after F14) keeps every row: each old row is a restriction of a new row *)
+Theorem C10_never_removes :
+  forall e gs lo c rows out, c_opt c = true -> fix14 e = true ->
+    specify_rows e gs lo c rows = Ok out ->
+    (length rows <= length out)%nat /\ forall r, In r rows -> exists r', In r' out /\ sub_row r r'.
+Proof. exact specify_optional_never_removes. Qed.
+Print Assumptions C10_never_removes.
+
+Theorem C10_row_kept_or_null_extended :
+  forall e gs lo c r rows, c_opt c = true -> fix14 e = true ->
+    add_specified_data e gs lo c r = Ok rows -> rows <> [] /\ forall r', In r' rows -> sub_row r r'.
+Proof. exact add_specified_optional_keeps. Qed.
+Print Assumptions C10_row_kept_or_null_extended.
+
+(* an OPTIONAL clause that shares no binding (Table.LeftOptionalJoin, after F9): all combinations, or every left row
+   NULL-extended when the clause matched nothing; never fewer rows *)
+Theorem C10_disjoint_left_join :
+  forall t t2, disjoint (tb t) (tb t2) = true -> same_set (tb t) (tb t2) = false -> tb t2 <> [] ->
+    left_optional_join true t t2 =
+    Ok (LojTable (mkTable (add_all (tb t) (tb t2))
+          (match trows t2 with
+           | [] => map (fun r => extend_row r (add_all (tb t) (tb t2))) (trows t)
+           | _ => flat_map (fun r1 => map (fun r2 => merge_rows r1 r2) (trows t2)) (trows t)
+           end))).
+Proof. exact left_optional_join_disjoint. Qed.
+Print Assumptions C10_disjoint_left_join.
+
+Theorem C10_disjoint_never_removes :
+  forall t t2 t', left_optional_join true t t2 = Ok (LojTable t') -> (length (trows t) <= length (trows t'))%nat.
+Proof. exact left_optional_join_never_removes. Qed.
+Print Assumptions C10_disjoint_never_removes.
+
+(* the planner calls LeftOptionalJoin only when no binding of the clause is in the table: the joinWithRange branch (not
+   modelled here: it sorts with rowLess, Table family) is never taken from processClause *)
+Theorem C10_join_range_unreachable :
+  forall (e : cfg) (c : clause) (t : table),
+    filter (fun b => mem b (tb t)) (clause_bindings c) = [] ->
+    forall rows, left_optional_join (fix9 e) t (mkTable (clause_bindings c) rows) <> Ok LojRange.
+Proof. exact process_clause_join_disjoint. Qed.
+Print Assumptions C10_join_range_unreachable.
+
+(* hypotheses are satisfiable: on the F9 witness the current model keeps the row and NULL-extends it *)
+Example C10_example :
+  exists outs row, run_model (w_optional_disjoint_empty (current true false)) = Ok (outs, [row]) /\
+                   In (Some CNull) row /\ run_spec (w_optional_disjoint_empty (current true false)) = [row].
+Proof. vm_compute. eexists _, _. split; [reflexivity|]. split; [right; right; left; reflexivity|reflexivity]. Qed.
+
+(* ---- refutations (replayed on the real planner by checks/c10.py, corpus/C10/witnesses.jsonl) *)
+
+(* a fully specified OPTIONAL clause with an alias: AppendTable error instead of the rows of the pattern before it *)
+Theorem C10_spec3_alias_refuted :
+  exists q, q_cfg q = current true false /\ run_model q = Err EAppend /\ run_spec q <> [].
+Proof. exists (w_optional_spec3_alias (current true false)). vm_compute. repeat split; discriminate. Qed.
+Print Assumptions C10_spec3_alias_refuted.
+
+(* ... or, when nothing is bound yet and the triple is absent, the clause is "unresolvable" and everything is dropped *)
+Theorem C10_spec3_alias_absent_refuted :
+  exists q outs, q_cfg q = current true false /\ run_model q = Ok (outs, []) /\ run_spec q <> [].
+Proof. exists (w_optional_spec3_alias_absent (current true false)). vm_compute. eexists. repeat split; discriminate. Qed.
+Print Assumptions C10_spec3_alias_absent_refuted.
+
+(* an OPTIONAL clause processed while the table has no bindings yet (only fully specified clauses before it) is appended,
+   not left-joined: when it matches nothing the result is empty instead of one NULL row *)
+Theorem C10_optional_unbound_refuted :
+  exists q outs, q_cfg q = current true false /\ run_model q = Ok (outs, []) /\ run_spec q <> [].
+Proof. exists (w_optional_unbound (current true false)). vm_compute. eexists. repeat split; discriminate. Qed.
+Print Assumptions C10_optional_unbound_refuted.
+
+(* repaired (F9): before, an OPTIONAL clause sharing no binding and matching nothing dropped ALL rows *)
+Theorem C10_disjoint_empty_original_refuted :
+  exists q, (exists outs, run_model (q (original false true)) = Ok (outs, []) /\ run_spec (q (original false true)) <> []) /\
+            (exists outs row, run_model (q (current true false)) = Ok (outs, [row]) /\ run_spec (q (current true false)) = [row]).
+Proof.
+  exists w_optional_disjoint_empty. vm_compute. split.
+  - eexists. split; [reflexivity|discriminate].
+  - eexists _, _. split; reflexivity.
+Qed.
+Print Assumptions C10_disjoint_empty_original_refuted.
+
+(* repaired (F14): a NULL produced by one OPTIONAL clause "joined" with anything in the next one *)
+Theorem C10_join_null_original_refuted :
+  exists q, (exists outs row, run_model (q (original false true)) = Ok (outs, [row]) /\ run_spec (q (original false true)) <> [row]) /\
+            (exists outs row, run_model (q (current true false)) = Ok (outs, [row]) /\ run_spec (q (current true false)) = [row]).
+Proof.
+  exists w_optional_join_null. vm_compute. split.
+  - eexists _, _. split; [reflexivity|discriminate].
+  - eexists _, _. split; reflexivity.
+Qed.
+Print Assumptions C10_join_null_original_refuted.
